@@ -132,7 +132,7 @@ Outcome(regs, s) ==
     [] s.op \in {"add_ptv_assign", "sub_ptv_assign"} -> AddPtvOut(d, d, Pt(s), FALSE)
     [] s.op \in {"add_ptz_into", "sub_ptz_into"} -> AddPtzOut(d, a, s, TRUE)
     [] s.op \in {"add_ptz_assign", "sub_ptz_assign"} -> AddPtzOut(d, d, s, FALSE)
-    [] s.op = "mul_ptz_into" -> MulPtOut(d, a, PtZ(s))
+    [] s.op = "mul_ptz_into" -> IF s.pb # B THEN Err(ErrBase, d) ELSE MulPtOut(d, a, PtZ(s))
     [] s.op \in {"add_ptc_into", "sub_ptc_into"} -> AddPtcOut(d, a, Pt(s), TRUE)
     [] s.op \in {"add_ptc_assign", "sub_ptc_assign"} -> AddPtcOut(d, d, Pt(s), FALSE)
     [] s.op \in {"mul_ptv_into", "mul_ptc_into"} -> MulPtOut(d, a, Pt(s))
